@@ -145,6 +145,14 @@ func (tc *typechecker) checkIdentifier(ident *ast.Identifier, used bool) *typeIn
 		tc.compilation.iteaToUsingCheck[ident.Name] = uc
 	}
 
+	// The type infos of the constants of the universe block are shared by all
+	// the compilations, and the type info of a constant is changed when the
+	// constant is used as a value, so use a copy.
+	if ti.IsConstant() && ti.Properties&propertyUniverse != 0 {
+		c := *ti
+		ti = &c
+	}
+
 	tc.compilation.typeInfos[ident] = ti
 	return ti
 }
